@@ -23,12 +23,14 @@ require (
 	zgo.at/zcache/v2 v2.1.0
 )
 
-require github.com/pkg/errors v0.9.1
+require (
+	github.com/cespare/xxhash/v2 v2.3.0
+	github.com/pkg/errors v0.9.1
+)
 
 require (
 	github.com/beorn7/perks v1.0.1 // indirect
 	github.com/cespare/xxhash v1.1.0 // indirect
-	github.com/cespare/xxhash/v2 v2.3.0 // indirect
 	github.com/davecgh/go-spew v1.1.2-0.20180830191138-d8f796af33cc // indirect
 	github.com/emicklei/go-restful/v3 v3.11.0 // indirect
 	github.com/fxamacker/cbor/v2 v2.7.0 // indirect
